@@ -273,8 +273,8 @@ def run(ctx: Ctx):
     ctx.notes["model_behaviours_exported"] = len(behaviours)
     if not behaviours:
         raise tlc.MachineryError("no behaviours exported from the model")
-    if q and len(behaviours) > 9000:
-        behaviours = rng.sample(behaviours, 9000)
+    if q and len(behaviours) > 6000:
+        behaviours = rng.sample(behaviours, 6000)
     elif len(behaviours) > 100000:
         behaviours = rng.sample(behaviours, 100000)
     ctx.notes["model_behaviours_replayed"] = len(behaviours)
@@ -284,7 +284,7 @@ def run(ctx: Ctx):
     judge_choices(ctx, choice_cases(rng, table, q))
     # 3. code -> spec
     cases = enum_cases(q)
-    cases += [rand_case(rng) for _ in range(4000 if q else 70000)]
+    cases += [rand_case(rng) for _ in range(3000 if q else 70000)]
     cases += [rand_case(rng, big=True) for _ in range(300 if q else 6000)]
     judge_traces(ctx, cases, "driver")
     if ctx.model_drift:
